@@ -667,6 +667,10 @@ def gen_part_metrics(rnd):
             tags.append("m-sequencer-on-split-rank")
     if isect:
         kl = rnd.choice(level["K"])
+        if "K" in chosen and rnd.random() < 0.25:
+            # bound to the rank the mapping splits away (KF-16: created, queried, never fed)
+            kl = "K"
+            tags.append("m-intersector-on-split-rank")
         b += ["  - component: Isect", "    bindings:", "    - rank: %s" % kl]
         if itype == "leader-follower":
             b.append("      leader: %s" % facs[0].name)
